@@ -307,6 +307,25 @@ def bitfield_sweep():
                 if got != want:
                     fails.append(f"Reg({bg:08b}).{path} = {val}: vector becomes {got:08b}, expected {want:08b}")
                     return n, fails
+    # the same when the bitfield OWNS its storage (std.Variable / std.Signal qualifier): nested sub-BitFields are
+    # views of the owner's vector, a write through them must reach it (and to_bits of the owner must show it)
+    for qual in (std.Variable, std.Signal):
+        for bg in (0, 255, 0b10110101):
+            for path, (hi, lo, kind) in ST.REG_LAYOUT.items():
+                width = hi - lo + 1
+                for val in (0, 2**width - 1, (2**width - 1) // 3):
+                    r = ST.Reg(BitVector[W](format(bg, f"0{W}b")), _qualifier_=qual)
+                    tgt = field(r, path)
+                    if qual is std.Signal:
+                        tgt.next = mk(kind, width, val)
+                    else:
+                        tgt.value = mk(kind, width, val)
+                    n += 1
+                    want = (bg & ~(((2**width) - 1) << lo)) | (val << lo)
+                    got = _wi(std.to_bits(r))[1]
+                    if got != want:
+                        fails.append(f"{qual}-owned Reg({bg:08b}).{path} = {val}: to_bits gives {got:08b}, expected {want:08b}")
+                        return n, fails
     n += 2
     for dw in (1, -1):
         try:
@@ -373,6 +392,17 @@ def serial_sweep(tier="quick", seed=0):
                     fail.append({"type": t.name(), "what": f"to_bits(from_bits({v:0{w}b})) = {back}"})
                     break
             per_type.append((t.name(), cnt))
+            if t.kind in ("bv", "u", "s"):
+                # to_bits yields a VALUE (a new constant / temporary), not a view of its argument: bits taken
+                # before the argument changes keep the old value
+                for v in (0, 2**w - 1, (2**w - 1) // 3):
+                    y = T(BitVector[w](format(v, f"0{w}b")))
+                    taken = std.to_bits(y)
+                    y._assign(T(BitVector[w](format(v ^ (2**w - 1), f"0{w}b"))))
+                    n += 1
+                    if _wi(taken) != (w, v):
+                        fail.append({"type": t.name(), "what": f"to_bits(x) aliases x: taken at {v:0{w}b}, reads {taken} after x was assigned"})
+                        break
             if len(samples) < 4 and t.kind == "rec":
                 samples.append({"type": t.name(), "bits": w, "example": {"pattern": format(2**w - 2, f"0{w}b"), "decoded": t.decode(2**w - 2)}})
             # wrong widths are rejected
